@@ -250,10 +250,14 @@ class Normalizer:
                         atoms.append(a.with_(i=not a.i))
                 mm = Mono(1 / m.coef, tuple((k, z3.simplify(-e)) for k, e in m.scal), atoms, m.cols, m.rows)
                 return self.adj_poly([mm], h, c)
+            coef_out = one
+            if len(P) == 1 and not P[0].scal and not _is_num(P[0].coef, 1):
+                coef_out = 1 / P[0].coef          # inv(c M) = (1/c) inv(M)
+                P = [Mono(one, (), P[0].atoms, P[0].rows, P[0].cols)]
             key = self.pkey(P)
             a = Atom("inv", key, t.rows, t.cols, real="real" in t.props, herm="herm" in t.props,
                      diag="diag" in t.props, invt=True, inner=P)
-            return [Mono(one, (), [a.adj(h, c)], r, cc)]
+            return [Mono(coef_out, (), [a.adj(h, c)], r, cc)]
         if t.op == "dg":
             P = self.nf_poly(self.flat(t.args[0], False, c))
             out = []
@@ -384,7 +388,7 @@ class Normalizer:
         mid = []
         if k % 2 == 1:
             mid = [atoms[k // 2]]
-            if not (mid[0].diag and (mid[0].pos or mid[0].nn)):
+            if not ((mid[0].diag and (mid[0].pos or mid[0].nn)) or mid[0].kind == "J"):
                 return False
         first, second = atoms[:k // 2], atoms[k // 2 + len(mid):]
         return [x.key for x in first] == [x.adj(True, False).key for x in reversed(second)]
@@ -442,6 +446,8 @@ class Normalizer:
             raise Unsupported(f"hypothesis with a non-monomial left-hand side: {lhs!r}")
         m = L[0]
         if not m.atoms:
+            if self.equal_poly(L, R)[0]:
+                return            # already derivable from the rules present (e.g. the same hypothesis recorded twice)
             raise Unsupported("hypothesis rewriting the identity")
         R = [Mono(x.coef / m.coef, x.scal, x.atoms, x.rows, x.cols) for x in R]
         for h, c in ((False, False), (True, False), (False, True), (True, True)):
